@@ -10,12 +10,12 @@ def run_property(prop, tier, seed):
     assumptions = list(getattr(mod, "ASSUMPTIONS", []))
     broken = []          # names of the proof obligations / correspondences that no longer check
 
-    gen_ok, gen_rep = core.stage_gen()
-    if not gen_ok:
-        broken.append("translator refused the current source: " + gen_rep.get("error", "")[-400:])
     h_ok, h_out, h_dt = core.stage_harness()
     if not h_ok:
         broken.append("harness does not build against the current source: " + h_out[-600:])
+    gen_ok, gen_rep = core.stage_gen() if h_ok else (False, {"error": "harness not built"})
+    if not gen_ok:
+        broken.append("translator refused the current source: " + (gen_rep.get("refused") or gen_rep.get("error", ""))[-600:])
 
     # S1: model + evaluation entry points (must build even when a proof is broken)
     run_targets = [t.replace(".v", ".vo") for t in getattr(mod, "RUN_FILES", [])]
